@@ -311,7 +311,33 @@ func RunTermination(t *rapid.T, test string) {
 		}
 		w.forced = map[string]string{"bprop.strat": "new"}
 		f := func(r int, phase, kind string) { w.forced[fmt.Sprintf("r%d.%s", r, phase)] = kind }
-		if prefix == "gadget-locks" {
+		if prefix == "gadget-locks" && len(s.faulty) > 0 && rapid.IntRange(0, 2).Draw(t, "gadgetLatePolkaBlock") == 0 {
+			// variant: an equivocating faulty proposer gives the victim another block than everybody else; the polka
+			// for the others' block is seen by the victim alone, which then fetches that block (it arrives after the
+			// polka), locks on it alone and is the only node that knows it as a valid block
+			if vals := net.Nodes[net.Order[0]].RS().Validators; vals != nil {
+				for r := 0; r <= 2; r++ {
+					vr := vals
+					if r > 0 {
+						vr = vals.CopyIncrementProposerPriority(int32(r))
+					}
+					if w.isFaulty(lib.KeyIndex(vr.GetProposer().Address)) {
+						r0 = r
+						break
+					}
+				}
+			}
+			w.forced[fmt.Sprintf("r%d.bprop", r0)] = "two"
+			w.forced["bprop.group"] = "victim"
+			f(r0, "prop", "all")
+			f(r0, "prevote", "victim-only")
+			f(r0, "lateblock", "yes")
+			f(r0, "precommit", "partial-all")
+			w.forced[fmt.Sprintf("r%d.fpv.strat", r0)] = "follow"
+			w.forced[fmt.Sprintf("r%d.fpc.strat", r0)] = "nil-all"
+			lib.Class(test, "gadget:late-polka-block")
+			w.playHeight(shadow, h, int32(r0+1))
+		} else if prefix == "gadget-locks" {
 			// the victim alone sees the polka of round r0 and locks; in round r0+1 everyone but the victim sees a
 			// polka for the next proposer's value
 			f(r0, "prop", "all")
